@@ -161,7 +161,7 @@ def run_batch(sh, ctx):
 		for qi in range(len(w.queries)):
 			f = next(x for x in qw.files if x['qi'] == qi)
 			for fmt in ('csv', 'json', 'archive'):
-				for strict in (False, True) if fmt == 'archive' else (False,):
+				for strict in (False, True):
 					out = qw.dir / f'alone_{qi}.{fmt}'
 					code, so, se, exc = run_cmd(['-d', qw.db, 'query', '-f', fmt, '-o', out, '--no-progress'] + (['--strict'] if strict else []) + [f['path']])
 					ctx.count('alone_runs')
@@ -188,7 +188,7 @@ def run_batch(sh, ctx):
 				rng.shuffle(batch)
 			channel = rng.choice(['positional', 'positional', 'listfile-rel', 'listfile-abs', 'sigfile-create', 'sigfile-oracle'])
 			fmt = rng.choice(['csv', 'csv', 'json', 'archive'])
-			strict = fmt == 'archive' and rng.random() < 0.4
+			strict = rng.random() < (0.4 if fmt == 'archive' else 0.2)
 			cores = rng.choice([None, 1, 2, 3, 8, 16])
 			progress = rng.random() < 0.4
 			out = qw.dir / f'out{ci}.{fmt}'
